@@ -1,3 +1,4 @@
 import EpsicDriver.Proto
 import EpsicDriver.OpsAlg
 import EpsicDriver.OpsAlias
+import EpsicDriver.OpsLin
